@@ -205,3 +205,62 @@ func HarnessC01_Handshake() {
 	}
 	vReach("handshake")
 }
+
+// HarnessC01_Chunked: messages at and around the default chunk size and the 16-bit
+// boundary are chunked by the writer and reassembled by the reader (no Set Chunk Size, or a
+// fixed one), under forked read segmentation.
+func HarnessC01_Chunked() {
+	sizes := []int{127, 128, 129, 257}
+	if vTier() == 1 {
+		sizes = []int{127, 128, 129, 255, 256, 257, 4095, 4096, 4097, 65535, 65536}
+	}
+	n := sizes[vChoice(len(sizes))]
+	ab := newDuplex()
+	a := NewProtocol(ab)
+	var sent []sentMsg
+	var marks []int
+	if vChoice(2) == 1 {
+		cs := []uint32{1, 127, 128, 129, 4096}[vChoice(5)]
+		if cs == 1 && n > 300 {
+			cs = 100
+		}
+		pkt := NewSetChunkSize()
+		pkt.ChunkSize = cs
+		vAssert(a.WritePacket(pkt, 0) == nil, "WritePacket(SetChunkSize) succeeds")
+		sent = append(sent, sentMsg{mt: MessageTypeSetChunkSize, payload: []byte{byte(cs >> 24), byte(cs >> 16), byte(cs >> 8), byte(cs)}})
+		marks = append(marks, len(ab.out.data))
+	}
+	m := NewStreamMessage(0)
+	m.streamID = vU32()
+	m.MessageType = MessageType(vU8())
+	vAssume(vAnd(vAnd(m.MessageType != 1, m.MessageType != 2), vAnd(m.MessageType != 4, m.MessageType != 5)))
+	m.Timestamp = uint64(vU32())
+	vAssume(m.Timestamp < 1<<31)
+	m.Payload = vPattern(n, 11)
+	m.Payload[0], m.Payload[n/2], m.Payload[n-1] = vU8(), vU8(), vU8()
+	sent = append(sent, sentMsg{mt: m.MessageType, sid: m.streamID, ts: m.Timestamp, payload: append([]byte(nil), m.Payload...)})
+	vAssert(a.WriteMessage(m) == nil, "WriteMessage succeeds")
+	marks = append(marks, len(ab.out.data))
+	// a short message afterwards stays aligned
+	m2 := genMessage(false)
+	vAssume(len(m2.Payload) == 2)
+	sent = append(sent, sentMsg{mt: m2.MessageType, sid: m2.streamID, ts: m2.Timestamp, payload: append([]byte(nil), m2.Payload...)})
+	vAssert(a.WriteMessage(m2) == nil, "WriteMessage succeeds")
+	ba := newDuplex()
+	ba.in.data = ab.out.data
+	segmentStream(ba.in, marks)
+	b := NewProtocol(ba)
+	for _, s := range sent {
+		got, err := b.ReadMessage()
+		vAssert(err == nil, "ReadMessage returns each written message")
+		if err != nil {
+			return
+		}
+		vAssert(vAnd(got.MessageType == s.mt, vAnd(got.streamID == s.sid, got.Timestamp == s.ts)), "type, stream id and timestamp identical")
+		vAssert(len(got.Payload) == len(s.payload), "payload length identical")
+		if len(got.Payload) == len(s.payload) {
+			vAssert(vEqBytes(got.Payload, s.payload), "payload bytes identical")
+		}
+	}
+	vReach("chunked")
+}
